@@ -25,7 +25,27 @@ def normalise(tree: ast.AST) -> ast.AST:
     when `t` is a plain local (not global / nonlocal, not referenced from a nested scope): the path ends at the return, so
     the binding cannot be observed; likewise `c = TEST; if c: ...` with c used nowhere else becomes `if TEST: ...`.
     Behaviour is unchanged; the rules then see the
-    returned expression whether or not the author routed it through a local."""
+    returned expression whether or not the author routed it through a local.  Before that, `return A if c else B` is
+    unfolded into `if c: return A` followed by `return B`."""
+    # return A if c else B   ->   if c: return A / return B     (one spelling for exit-by-exit rules; nested ternaries unfold too)
+    def unfold(ret: ast.Return) -> list:
+        v = ret.value
+        if not isinstance(v, ast.IfExp):
+            return [ret]
+        a = ast.copy_location(ast.Return(value=v.body), v.body)
+        b = ast.copy_location(ast.Return(value=v.orelse), v.orelse)
+        iff = ast.copy_location(ast.If(test=v.test, body=unfold(a), orelse=[]), ret)
+        return [iff] + unfold(b)
+    def unfold_all():
+        for blk in list(ast.walk(tree)):
+            for fld in ("body", "orelse", "finalbody"):
+                lst = getattr(blk, fld, None)
+                if isinstance(lst, list) and lst and isinstance(lst[0], ast.stmt):
+                    out = []
+                    for st in lst:
+                        out.extend(unfold(st) if isinstance(st, ast.Return) else [st])
+                    lst[:] = out
+    unfold_all()
     for fn in ast.walk(tree):
         if not isinstance(fn, (ast.FunctionDef, ast.AsyncFunctionDef)):
             continue
@@ -70,6 +90,7 @@ def normalise(tree: ast.AST) -> ast.AST:
                         lst[i:i + 2] = [new]
                         continue
                     i += 1
+    unfold_all()
     return tree
 
 
